@@ -173,4 +173,5 @@ def run(ctx):
   ctx.check(pur_fixture_matches(ix), "PUR", "fixture|mutation of a source element is detected", "ttverif/fixtures/source_mutation.py",
             "the rule still matches its positive fixture", "PUR no longer matches its positive fixture (rule broken)")
   shape.check_cache_keys(ctx, common.funcs(ctx, ["ttconv.isd"]))
+  isdrules.check_body_frame(ctx)
   common.check_history_independence(ctx, common.CORE + common.WRITERS + common.ISD_FILTERS + ["ttconv.imsc.elements", "ttconv.imsc.attributes", "ttconv.imsc.style_properties"])
